@@ -374,7 +374,11 @@ void view_wrote(Thread* t, const volatile void* a, unsigned size, int mo, bool r
   m.value = cell_mem(c);
   m.view = rel(mo) ? v.cur : v.rel;
   m.vc = rel(mo) ? t->vc : t->rel_fence;
-  if (rmw && !cl.msgs.empty()) { m.view.join(cl.msgs.back().view); m.vc.join(cl.msgs.back().vc); }
+  // A store narrower than the cell leaves the other bytes of the snapshot as they were: those bytes are
+  // separate atomic objects (e.g. adjacent int8 control bytes) whose writers' release views a reader of
+  // THEM must still acquire, so a partial-cell store carries the previous message's view like an update
+  // (DESIGN 3.4 `storeLo16`).  This only adds happens-before edges (a strengthening).
+  if ((rmw || size < 8) && !cl.msgs.empty()) { m.view.join(cl.msgs.back().view); m.vc.join(cl.msgs.back().vc); }
   m.view.ts[c] = m.ts;
   v.cur.ts[c] = m.ts;
   cl.msgs.push_back(m);
